@@ -29,7 +29,7 @@ ASSUMPTIONS = [
     'them); duplicates are detected by decoding twice (assign / accumulate)',
 ]
 ANCHORS = ['Table.to_hdf5', 'general_formatter', 'vlen_list_of_str_formatter', '_convert']
-REQUIRED = ['collapsed_conversions_checked', 'list_category_under_other_name', 'group_metadata_decoded', 'reserved_category_user_formatter', 'ragged_metadata_cases', 'format_fs_writes', 'spec_decodes', 'empty_axis_tables', 'all_zero_tables',
+REQUIRED = ['numpy_scalar_metadata_categories', 'collapsed_conversions_checked', 'list_category_under_other_name', 'group_metadata_decoded', 'reserved_category_user_formatter', 'ragged_metadata_cases', 'format_fs_writes', 'spec_decodes', 'empty_axis_tables', 'all_zero_tables',
             'cli_convert_files', 'layout_csc_seen', 'layout_unsorted_seen',
             'inplace_zeroed_tables']
 
